@@ -360,3 +360,11 @@ class Check:
                                         self.evaluations, len(self.distinct), self.traces,
                                         len(self.violations) + (1 if nofail else 0), time.time() - self.t0))
         return rc
+
+
+def summarize_violations(check, keyf):
+    cnt = {}
+    for what, rec in check.violations:
+        k = keyf(rec)
+        cnt[k] = cnt.get(k, 0) + 1
+    return cnt
